@@ -287,6 +287,12 @@ Definition C01_full : Prop :=
   (forall (a b c : farray G R) axes mode, wf_fermi G R a = true -> wf_fermi G R b = true ->
      f_tensordot G R a b axes mode = Some c -> wf_fermi G R c = true).
 
+(* NOTE (later round): `C01_full` above is superseded: three of its clauses lack side conditions and are
+   refuted on concrete arrays in Props/C01b.v (einsum / f_tensordot need opposite directions on the paired
+   legs, f_fuse needs non-empty groups); the corrected statement `C01_full2` is PROVED there
+   (`C01_full2_proved`): unfuse, einsum, matmul, fuse with any groups, contraction in every mode, and the
+   fermionic versions preserve validity, and so does every finite program over the extended instruction set. *)
+
 Print Assumptions C01_transpose_wf.
 Print Assumptions C01_conj_wf.
 Print Assumptions C01_dagger_wf.
